@@ -89,6 +89,21 @@ func eval(cs caseT, trace func(string)) (string, string) {
 			return "used-types", fmt.Sprintf("%s: UsedUserTypes() = %v, the schema text references %v", desc, used, want)
 		}
 	}
+	// ... and also when it is asked for the first time AFTER the schema was checked (compilation rewrites
+	// the node tree: inherited properties are copied in, allOf rules removed)
+	if err == nil {
+		if s2, b2 := lib.Build(c.Spec()); b2.OK {
+			_ = lib.Guard(s2.Check)
+			if used2, err2 := s2.UsedUserTypes(); err2 == nil {
+				a, w := append([]string{}, used2...), append([]string{}, used...)
+				sort.Strings(a)
+				sort.Strings(w)
+				if strings.Join(a, ",") != strings.Join(w, ",") {
+					return "used-types-after-check", fmt.Sprintf("%s: UsedUserTypes() = %v when first asked after Check, %v on a fresh schema", desc, used2, used)
+				}
+			}
+		}
+	}
 	chk := lib.Guard(s.Check)
 	if chk.Panic != "" {
 		return "panic", fmt.Sprintf("%s: Check panics: %s", desc, chk.Panic)
@@ -529,6 +544,7 @@ func canonical(x caseT) caseT {
 }
 
 func run(c *ev.Ctx) {
+	usedTypesFamily(c)
 	trace := func(s string) { c.Trace(func() string { return s }) }
 	evalOne := func(cs caseT) {
 		if !c.Mine() {
